@@ -201,10 +201,17 @@ func propC20(c *ctx) error {
 					want = append(want, e)
 					rtCalls = append(rtCalls, kw.name+"|"+e.ctx+"|"+e.id+"|"+e.plural)
 				}
-				if strings.Contains(call, "T('inner')") && kwFlag == "" {
-					// the nested call is a keyword call of its own
-					off := strings.Index(line, "T('inner')") + 2
-					want = append(want, exp{id: "inner", ref: fmt.Sprintf("%s:%d:%d", fname, ln, len([]rune(line[:off]))+1)})
+				if kwFlag == "" {
+					// every nested T('inner') is a keyword call of its own
+					for from := 0; ; {
+						k := strings.Index(line[from:], "T('inner')")
+						if k < 0 {
+							break
+						}
+						off := from + k + 2
+						want = append(want, exp{id: "inner", ref: fmt.Sprintf("%s:%d:%d", fname, ln, len([]rune(line[:off]))+1)})
+						from = off
+					}
 				}
 				sb.WriteString(line + "\n")
 			}
